@@ -1,13 +1,16 @@
 #!/bin/bash
-# runs every seeded change of the given properties against that property's check (sequentially); appends to work/seedmatrix.txt
+# runs seeded changes against a property's check, on a scratch worktree of /repo (VERIF_REPO), sequentially.
+# usage: seedmatrix.sh <seed>[:<prop>] ...   (default prop = the seed's own property); appends to work/seedmatrix.txt
 cd /verif
-for s in "$@"; do
-  prop=${s%%-*}
-  patch=/verif/seeded/$s/patch.diff
-  git -C /repo apply $patch || { echo "$s APPLY-FAILED" >> work/seedmatrix.txt; continue; }
-  ./check $prop --tier quick > work/seed-$s.log 2>&1; rc=$?
-  git -C /repo checkout -- .
-  v=$(grep -c "^VIOLATION" work/seed-$s.log); nf=$(grep -c "no-failing-input-found" work/seed-$s.log)
-  echo "$s rc=$rc violations=$v nofailinginput=$nf" >> work/seedmatrix.txt
+WT=/tmp/seedrepo-$$
+git -C /repo worktree add --detach $WT HEAD >/dev/null 2>&1 || exit 2
+trap 'git -C /repo worktree remove --force $WT >/dev/null 2>&1' EXIT
+for spec in "$@"; do
+  s=${spec%%:*}; prop=${spec##*:}; [ "$prop" = "$spec" ] && prop=${s%%-*}
+  git -C $WT checkout -q -- . ; git -C $WT clean -fdq
+  git -C $WT apply /verif/seeded/$s/patch.diff || { echo "$s APPLY-FAILED" >> work/seedmatrix.txt; continue; }
+  VERIF_REPO=$WT VERIF_NO_EVIDENCE=1 ./check $prop --tier quick > work/seed-$s-$prop.log 2>&1; rc=$?
+  v=$(grep -c "^VIOLATION" work/seed-$s-$prop.log); nf=$(grep -c "no-failing-input-found" work/seed-$s-$prop.log)
+  echo "$s vs $prop rc=$rc violations=$v nofailinginput=$nf" >> work/seedmatrix.txt
 done
 echo DONE >> work/seedmatrix.txt
